@@ -52,6 +52,19 @@ def r09a(ck, prog):
         if fn.param_index(p) is None:
             raise AnalysisBroken("R09a slot: aln_param_init has no parameter named %s" % p)
         prog.field("aln_param", p)
+    # the overrides may have been moved into a private helper that receives the three penalties under the same names
+    if not any(_param_refs(rhs, fn, PENALTIES) for p in PENALTIES for a, l, rhs in stores_to_field(fn.body, "aln_param", p)):
+        for c in fn.body.calls():
+            H = prog.functions.get(c.callee) if c.callee else None
+            if H is not None and H.static and H.file == fn.file and all(H.param_index(p) is not None for p in PENALTIES):
+                by_name = all(a.strip(casts=True).k == "DeclRefExpr" and a.strip(casts=True).d["name"] == H.params[i]["name"]
+                              for i, a in enumerate(c.args) if H.params[i]["name"] in PENALTIES)
+                if by_name and any(_param_refs(rhs, H, PENALTIES) for p in PENALTIES for a, l, rhs in stores_to_field(H.body, "aln_param", p)):
+                    fn = H
+                    break
+        else:
+            raise AnalysisBroken("R09a: no store of a penalty parameter into aln_param found in aln_param_init or a private helper "
+                                 "that receives gpo/gpe/tgpe by name")
     n_override = {p: 0 for p in PENALTIES}
     for p in PENALTIES:
         for asg, lhs, rhs in stores_to_field(fn.body, "aln_param", p):
@@ -549,17 +562,31 @@ def r09d(ck, prog):
 
 
 def r09e(ck, prog):
-    def consts_of(fname):
+    def consts_of(fname, depth=0):
         fn = prog.fn(fname)
         out = {}
+        helpers = [prog.functions[c.callee] for c in fn.body.calls() if c.callee in prog.functions and
+                   prog.functions[c.callee].file == fn.file and c.callee != fname and
+                   any(p_["ty"].replace(" ", "") == "structaln_param*" for p_ in prog.functions[c.callee].params)]
         for p in PENALTIES:
             vals = [const_value(rhs) for _, _, rhs in stores_to_field(fn.body, "aln_param", p)]
+            if not vals and depth < 2:
+                for H in helpers:
+                    vals += consts_of(H.name, depth + 1)[1].get(p, [])
             out[p] = vals
         # matrix constants: stores through ap->subm[..][..]
         mat = []
         for n in fn.body.find("BinaryOperator"):
             if n.d["op"] == "=" and "subm" in n.kids[0].text() and n.kids[0].strip().k == "ArraySubscriptExpr":
                 mat.append((const_value(n.kids[1]), n))
+        if not mat and depth < 2:
+            for H in helpers:
+                mat += consts_of(H.name, depth + 1)[1].get("matrix", [])
+        if depth == 0:
+            if not mat or any(v is None for v, _ in mat):
+                raise AnalysisBroken("R09e: the substitution scores of %s are not constants stored by it or by a setter it calls" % fname)
+            if any(not vals or any(v is None for v in vals) for vals in out.values()):
+                raise AnalysisBroken("R09e: %s does not set gpo/gpe/tgpe from constants (itself or through a setter it calls)" % fname)
         out["matrix"] = mat
         return fn, out
     fd, d = consts_of("set_subm_gaps_DNA")
